@@ -534,7 +534,7 @@ def r6(ctx):
         for c_ in [x for x in walk_function(fi.node) if isinstance(x, ast.Compare) and len(x.ops) == 1 and isinstance(x.ops[0], (ast.Eq, ast.NotEq))]:
             r_ = util.resolve_locals(fi.node, c_, keep=("allele_seq",))
             sides = [r_.left, r_.comparators[0]]
-            q_ = [x for x in sides if isinstance(x, ast.Subscript) and u(x.value) == "bam_read.query_sequence"]
+            q_ = [x for x in sides if isinstance(x, ast.Subscript) and u(x.value).startswith("bam_read.")]
             v_ = [x for x in sides if isinstance(x, ast.Subscript) and u(x.value) == "allele_seq"]
             if len(q_) == 1 and len(v_) == 1:
                 cands.append((c_, q_[0], v_[0]))
@@ -556,6 +556,10 @@ def r6(ctx):
             progress = {"a.matched": 1, "a.inserted": 1}
             ok = vi == progress and qi is not None and {k: v for k, v in qi.items() if k != "query_start"} == progress and qi.get("query_start") == 1
             detail = "allele index %s, query index %s" % (vi, qi)
+            if u(q_.value) != "bam_read.query_sequence":
+                # the query offsets kept by _detect_alleles count soft-clipped bases: only query_sequence is indexed that way
+                ok = False
+                detail = "the read base is taken from %s, but the query offsets are offsets into bam_read.query_sequence (soft clips included)" % u(q_.value)
             ctx.ob(fi.qual, "allele-and-query-advance-in-lock-step", ok, fi.loc(c_), "allele base [matched + inserted] is compared with query base [query_start + matched + inserted]" if ok else "allele and query are not indexed by the same progress (%s): a read carrying the allele is compared against the wrong allele characters" % detail)
         sq = util.single_def(fi.node, "allele_seq")
         ok = sq is not None and u(sq) == "variant.get_allele(i)"
